@@ -427,6 +427,41 @@ var c06Families = []c06Family{
 		}
 		return fw.Result{Verdict: fw.Held}
 	}},
+	{"deep-expressions", func(tier string) int { return len(c17Deep) * 4 }, func(ctx *fw.Ctx, k int) fw.Result {
+		// every bracketing construct nested up to a million deep: whatever the parser lets through, evaluating and
+		// rendering it must return
+		p := c17Deep[k/4]
+		d := []int{100, 5000, 9990, 1000000}[k%4]
+		src := strings.Repeat(p[0], d) + "$x" + strings.Repeat(p[1], d)
+		ctx.Cell(fmt.Sprintf("deep:%d", d))
+		ctx.Eval(fmt.Sprintf("deep:%s:%d", p[0], d))
+		node, err := parse.Expr(src)
+		if err != nil || node == nil {
+			ctx.Obs("expr_parse_errors", 1)
+		} else {
+			armRenderBudget()
+			if _, err := soyhtml.EvalExpr(node); err != nil {
+				ctx.Obs("evalexpr_errors", 1)
+			} else {
+				ctx.Obs("evalexpr_ok", 1)
+			}
+		}
+		if strings.Contains(src, "{") || strings.Contains(src, "}") {
+			return fw.Result{Verdict: fw.Held}
+		}
+		tofu, cerr := compile([]srcFile{{"deep.soy", "{namespace deep}\n/** @param? x\n * @param? a\n * @param? b */\n{template .t}\n{isNonnull($x)}{isNonnull($a)}{isNonnull($b)}{" + src + "}\n{/template}\n"}}, nil)
+		if cerr != nil {
+			ctx.Obs("compile_rejected", 1)
+			return fw.Result{Verdict: fw.Held}
+		}
+		if _, rerr := render(tofu, "deep.t", map[string]ref.Value{"x": ref.Int(1), "a": ref.Bool(true), "b": ref.Int(2)}, nil, nil); rerr != nil {
+			ctx.Obs("render_errors", 1)
+		} else {
+			ctx.Obs("render_ok", 1)
+		}
+		ctx.Cell("entry:Tofu.Render")
+		return fw.Result{Verdict: fw.Held}
+	}},
 	{"api-misuse", func(tier string) int { return 200 }, func(ctx *fw.Ctx, k int) fw.Result {
 		tofu, err := compile([]srcFile{{"m.soy", "{namespace m}\n/** @param? x */\n{template .t}{$x ?: 'd'}{/template}\n"}}, nil)
 		if err != nil {
